@@ -39,7 +39,29 @@ fn kind_name(f: &Fault) -> &'static str {
 pub fn programs(tier: Tier) -> Vec<HCase> {
     // fixed strides through the deterministic enumeration of the (quick) C03 space
     let stride = match tier { Tier::Quick => 3001, Tier::Thorough => 251 };
-    super::c03::cases_strided(Tier::Quick, stride)
+    let mut v = super::c03::cases_strided(Tier::Quick, stride);
+    v.extend(far_programs());
+    v
+}
+
+/// trees whose regions lie millions of units from the origin (thresholds 5e6 / 7e6, 2-D: a far corner)
+fn far_programs() -> Vec<HCase> {
+    use crate::gen::{Aff, TSpec};
+    use crate::hist::{GSpec, Init};
+    let r1 = |a: &[f64], b: f64| Aff::row1(a, b);
+    let k1 = |c: f64| Some(TSpec::Leaf(Aff::row1(&[0.0], c)));
+    let t1 = TSpec::Dec(r1(&[1.0], 5e6), vec![Some(TSpec::Dec(r1(&[1.0], 7e6), vec![k1(3.0), k1(2.0)])), k1(1.0)]);
+    let t1b = TSpec::Dec(r1(&[-1.0], -5e6), vec![k1(1.0), Some(TSpec::Dec(r1(&[-1.0], -7e6), vec![k1(2.0), k1(3.0)]))]);
+    let k2 = |c: f64| Some(TSpec::Leaf(Aff::row1(&[0.0, 0.0], c)));
+    let t2 = TSpec::Dec(r1(&[1.0, 0.0], 5e6), vec![Some(TSpec::Dec(r1(&[0.0, 1.0], -7e6), vec![k2(3.0), k2(2.0)])), k2(1.0)]);
+    let mut v = vec![];
+    for t in [t1.clone(), t1b] {
+        v.push(HCase { init: Init::Spec(t.clone()), ops: vec![Op::Elim] });
+        v.push(HCase { init: Init::FromAff(r1(&[1.0], 0.0)), ops: vec![Op::Compose(GSpec::Relu(0), false), Op::Compose(GSpec::User(t), true)] });
+    }
+    v.push(HCase { init: Init::Spec(t2.clone()), ops: vec![Op::Elim] });
+    v.push(HCase { init: Init::FromAff(Aff::identity(2)), ops: vec![Op::Compose(GSpec::Relu(0), false), Op::Compose(GSpec::User(t2), true)] });
+    v
 }
 
 struct Prepared {
